@@ -89,8 +89,8 @@ Theorem C10_roundtrip_sound : forall (K : fld) (Bp Ap : list K) (x : sig K), rou
   forall s, peval Ap s <> 0 -> Lval s x = peval Bp s / peval Ap s.
 Proof. exact roundtrip_sound. Qed.
 Theorem C10_case_rt_sound : forall const F o, rt_check const F o = true ->
-  forall (E : Qc -> qci) (s : qci), (forall ct, In ct F -> peval (ct_A ct) s <> (0 : QcIF)) ->
-  dLval E s (obs_dsig (map (fun i => fst (fst i)) (ins_of const F)) o) = (const * input_sum QcIF E s F : QcIF).
+  forall (E : Qc -> QcIF) (s : QcIF), (forall ct, In ct F -> peval (ct_A ct) s <> 0) ->
+  dLval E s (obs_dsig (map (fun i => fst (fst i)) (ins_of const F)) o) = const * input_sum QcIF E s F.
 Proof. exact case_rt_sound. Qed.
 Theorem C10_model_eval_is_doit : forall B guard causal const F,
   model_eval B guard causal const F [] = doit_model QcIF ciconj B guard causal const (map ct_term F).
